@@ -110,7 +110,7 @@ contract(
 # byte-identical"): exactly the first lines of the notes to update are rewritten, by the given line function.
 # ---------------------------------------------------------------------------------------------------------------
 from engine.spec import fs_exists, fs_only_changed, fs_read, json_map, map_set, opaque  # noqa: E402
-from contracts.c06 import sha256_of  # noqa: E402,F401
+from contracts.hashfile import _fs_havoc, hash_file_of, sha256_of  # noqa: E402,F401
 from contracts.c16 import relative  # noqa: E402,F401
 from zorg.domain.models import Note  # noqa: E402
 
@@ -118,34 +118,6 @@ NLINES = 3 if os.environ.get("VERIF_TIER") != "thorough" else 5
 PATH = T.rec("Path", {"s": T.str()})
 UPD_BOUNDED = (f"bounded-symbolic: pages of at most {NLINES} lines and at most 2 notes to update (bodies of 1-2 lines); every line, ZID and line number "
                "fully symbolic; the line function and the value getter are uninterpreted functions")
-
-
-@opaque("path", always=True)
-def hash_file_of(zdir):
-    """the notes directory's hash file (.zorg/file_hash.json)"""
-    from zorg.service import handlers
-
-    return handlers._get_file_hash_path(zdir)
-
-
-def _fs_havoc(interp, loc, old):
-    """assumed contracts with a file-system effect: the post-state is a fresh file system, constrained by the ensures clauses"""
-    import z3
-    from engine import models
-
-    g = models.fs_state(interp)
-    g["fs_exists"] = interp.ctx.fresh("fs_exists.after", z3.ArraySort(z3.StringSort(), z3.BoolSort()))
-    g["fs_content"] = interp.ctx.fresh("fs_content.after", z3.ArraySort(z3.StringSort(), z3.StringSort()))
-
-
-contract(H + "_get_file_hash_path", props=["C05", "C11"], assumed=True, args={"zdir": PATH}, result_is="hash_file_of(zdir)",
-         note="ASSUMED: zdir/.zorg/file_hash.json (creating the .zorg directory is not a change of any file)")
-contract(H + "_write_file_hash_to_disk", props=["C05", "C11"], assumed=True, args={"file_hash_path": PATH, "file_to_hash": T.map(T.str(), T.str())},
-         ensures={"stored": "fs_exists(file_hash_path) and json_map(fs_read(file_hash_path)) == file_to_hash", "nothing-else": "fs_only_changed(file_hash_path)"},
-         note="ASSUMED: json.dump of the sorted map (A-FS json codec: loads(dump(m)) == m)")
-from engine.spec import REGISTRY as _REG5  # noqa: E402
-
-_REG5[H + "_write_file_hash_to_disk"]["effects"] = _fs_havoc
 
 
 def _update_prelude(interp, loc):
